@@ -643,12 +643,12 @@ fn probe_into_string(s: &str, via: u8) -> Option<Result<String, String>> {
     let _ = child.wait();
     return None;
   }
-  let res = match rx.recv_timeout(Duration::from_secs(5)) {
+  let res = match rx.recv_timeout(Duration::from_secs(30)) {
     Ok(line) => match line.strip_prefix("done:") {
       Some(v) => Ok(v.to_owned()),
       None => Err(format!("unexpected output {line:?}")),
     },
-    Err(std::sync::mpsc::RecvTimeoutError::Timeout) => Err("still running 5 s after it started (non-terminating)".to_owned()),
+    Err(std::sync::mpsc::RecvTimeoutError::Timeout) => Err("still running 30 s after it started (non-terminating)".to_owned()),
     Err(std::sync::mpsc::RecvTimeoutError::Disconnected) => {
       let st = child.wait().ok();
       Err(format!("the process died without returning ({st:?})"))
